@@ -71,14 +71,14 @@ def write_file(setup, path):
         V = a - c * i + b * (j + 0.5) - d * zr[:, 0, 0][k]
         U = U.astype("f4").astype(float); V = V.astype("f4").astype(float)
         setup["U"], setup["V"] = U, V
-    scale = 1.0 / 8 if setup["packed"] else None
+    scale = (1.0 / 8, 1.0 / 16) if setup["packed"] else None       # u and v packed with different factors
     # an earlier file with the *other* kind of storage (the frames before the start come from it):
     # packing is a property of each file, not of the run
     other = Path(path).with_name("roms_a.nc")
     lab.make_grid_forcing(other, [-640, -64], imax=IMAX, jmax=JMAX, N=N, h=setup["h"], mask=setup["mask"],
                           u=lambda t, k, j, i: 0.5 + 0 * k, v=lambda t, k, j, i: -0.25 + 0 * k,
                           scal=dict(temp=lambda t, k, j, i: 1.0 + 0 * k), dx=128.0, hc=setup["hc"],
-                          Cs_r=setup["Cs_r"], vtransform=setup["vt"], scale_uv=None if setup["packed"] else 1.0 / 4)
+                          Cs_r=setup["Cs_r"], vtransform=setup["vt"], scale_uv=None if setup["packed"] else (1.0 / 4, 1.0 / 8))
     lab.make_grid_forcing(path, [0, 640], imax=IMAX, jmax=JMAX, N=N, h=setup["h"], mask=setup["mask"],
                           u=lambda t, k, j, i: U[k, j, i], v=lambda t, k, j, i: V[k, j, i],
                           scal=dict(temp=lambda t, k, j, i: S[k, j, i]), dx=128.0, hc=setup["hc"],
